@@ -142,7 +142,6 @@ pub fn dispatch(kind: &str, a: &[&str]) -> Option<String> {
                             }
                             Err(e) => {
                                 out.push(err_class(&e).to_string());
-                                out.push(format!("@{}", $rd.position()));
                             }
                         }
                     }
@@ -175,7 +174,6 @@ pub fn dispatch(kind: &str, a: &[&str]) -> Option<String> {
                         }
                         Err(e) => {
                             out.push(err_class(&e).to_string());
-                            out.push(format!("@{}", $rd.position()));
                         }
                     }
                 }};
